@@ -77,7 +77,8 @@ def tweak_strategy():
         st.tuples(st.just("listen_on_ports"), i, i,
                   st.lists(st.one_of(st.sampled_from([p for p in PORT_NAMES if p != "ARP"]),
                                      st.sampled_from([631, 8080, 445])), min_size=1, max_size=3)),
-        st.tuples(st.just("defaults"), st.sampled_from(DEFAULT_KEYS), small, st.sampled_from(["top", "top", "simulation"])),
+        st.tuples(st.just("defaults"), st.sampled_from(DEFAULT_KEYS + ["folder_scan_duration", "folder_restore_duration"]),
+                  st.sampled_from([0, 0, 1, 2, 5]), st.sampled_from(["top", "top", "simulation"])),
         st.tuples(st.just("acl_rule"), i, st.integers(0, 5), st.integers(0, 23), rule),
         st.tuples(st.just("route"), i, ipv, st.sampled_from([None, "255.255.255.0", "255.255.255.240"]), ipv,
                   st.sampled_from([None, 0, 1.5, 7, 2])),
@@ -340,7 +341,7 @@ _RULE = {"action": "DENY", "protocol": "TCP", "src_ip": "192.168.10.2", "src_wil
 ALPHABET: List[List] = (
     [["fixing_duration", h, j, 4] for h in range(3) for j in range(3)]
     + [["listen_on_ports", h, j, ["SMB", 631]] for h in range(3) for j in (0, 3)]
-    + [["defaults", k, 1, "top"] for k in DEFAULT_KEYS if k != "node_start_up_duration"]
+    + [["defaults", k, v, w] for k in DEFAULT_KEYS for v in (0, 1, 2, 5) for w in ("top", "simulation")]
     + [["acl_rule", r, l, pos, dict(_RULE)] for r in (0, 1) for l in range(6) for pos in (0, 1, 23)]
     + [["route", r, "172.16.5.0", m, "192.168.10.2", me] for r in (0, 1) for m in (None, "255.255.255.240") for me in (None, 7, 1.5)]
     + [["default_route", r, "10.0.0.9"] for r in (0, 1)]
